@@ -315,6 +315,9 @@ convert(struct func *f, struct type *dst, struct type *src, struct value *l)
 	} else {
 		class = dst->size == 8 ? 'd' : 's';
 		if (src->prop & PROPINT) {
+			/* values narrower than a word are not kept normalized */
+			if (src->size < 4)
+				l = convert(f, &typeint, src, l);
 			if (src->u.basic.issigned)
 				op = src->size == 8 ? ISLTOF : ISWTOF;
 			else
